@@ -44,6 +44,9 @@ var (
 	c17Hosts   = []struct{ raw, host string }{              //nolint:gochecknoglobals
 		{"example.org", "example.org"}, {"a", "a"}, {"1.2.3.4", "1.2.3.4"}, {"[::1]", "::1"},
 		{"[2001:db8::7]", "2001:db8::7"}, {"[fe80::1%25eth0]", "fe80::1%25eth0"}, {"xn--bcher-kva.example", "xn--bcher-kva.example"},
+		// IPv4-mapped IPv6 literals in several spellings: they are IPv6 hosts and stay what was written
+		{"[::ffff:192.0.2.7]", "::ffff:192.0.2.7"}, {"[::ffff:c000:207]", "::ffff:c000:207"}, {"[0:0:0:0:0:ffff:1.2.3.4]", "0:0:0:0:0:ffff:1.2.3.4"},
+		{"[2001:db8::ffff:1.2.3.4]", "2001:db8::ffff:1.2.3.4"}, {"[::]", "::"}, {"[64:ff9b::192.0.2.33]", "64:ff9b::192.0.2.33"},
 	}
 	c17Ports = []struct { //nolint:gochecknoglobals
 		raw    string
@@ -487,6 +490,17 @@ func c17(c *core.Ctx) {
 
 				return
 			}
+			// the caller owns the result: it derives a variant by editing the struct, then the same string is parsed again
+			u.Port, u.Host, u.Proto, u.Scheme = u.Port^1, u.Host+".variant", stun.ProtoTypeTCP+stun.ProtoTypeUDP-u.Proto, stun.SchemeTypeTURNS
+			u2, err2 := stun.ParseURI(uc.raw)
+			c.Count("reparsed_after_editing_the_result", 1)
+			if err2 != nil || *u2 != want {
+				detail["second_parse"] = fmt.Sprintf("%+v %v", u2, err2)
+				detail["want"] = fmt.Sprintf("%+v", want)
+				c.Violate("wrong-components", "wrong-components:second-parse-after-editing-first-result", detail)
+
+				return
+			}
 		}
 		if c.WantSample() && i%97 == 0 {
 			c.Sample(map[string]interface{}{"input": uc.raw, "parsed": fmt.Sprintf("%+v", *u)})
@@ -513,6 +527,18 @@ func c17(c *core.Ctx) {
 		"turn:example.org", "turn:example.org?transport=tcp", "turn:192.0.2.9:3479?transport=udp", "turn:[2001:db8::2]?transport=tcp",
 		"turns:example.org", "turns:example.org:443?transport=tcp", "turns:[::1]:5350?transport=tcp",
 		"turns:127.0.0.1?transport=udp", "turns:localhost:5350?transport=udp", "turns:[::1]:7000?transport=udp",
+		"stun:[::ffff:192.0.2.7]:3478", "turn:[::ffff:192.0.2.7]?transport=tcp", "stuns:[::ffff:c000:207]", "turn:[0:0:0:0:0:ffff:1.2.3.4]:1?transport=udp",
+	}
+	// server names of every length a URI can carry, around the DNS limits (63-byte labels, 253/254/255-byte names)
+	for _, n := range []int{63, 64, 200, 252, 253, 254, 255, 256, 300, 1000} {
+		name := ""
+		for len(name) < n {
+			name += "abcdefghijklmnopqrstuvwxyz0123456789abcdefghijklmnopqrstuvwxyz."[:min(63, n-len(name))]
+		}
+		if name[len(name)-1] == '.' {
+			name = name[:len(name)-1] + "x"
+		}
+		parsed = append(parsed, "stuns:"+name, "turns:"+name+":5350?transport=tcp")
 	}
 	c.SectionSerial("dial-parsed", int64(len(parsed)), func(i int64, _ *gen.Rand) {
 		u, err := stun.ParseURI(parsed[i])
